@@ -104,6 +104,12 @@ def definite_check(M, tol, sign, stats, name):
     stats["matrices"] = stats.get("matrices", 0) + 1
     if lam_max > 0 and w[0] < 1e-8 * lam_max:
         stats["near_singular"] = stats.get("near_singular", 0) + 1
+    if n and lam_max > 0 and w[0] < 0:      # how close the clean tree comes to the tolerance (evidence only)
+        r = -w[0] / (tol * lam_max)
+        if r > 0.01:
+            stats["neg_eig_within_100x_of_tol"] = stats.get("neg_eig_within_100x_of_tol", 0) + 1
+        if r > 0.1:
+            stats["neg_eig_within_10x_of_tol"] = stats.get("neg_eig_within_10x_of_tol", 0) + 1
     if n == 0 or w[0] >= -0.5 * tol * lam_max:
         return None
     # suspected: decide exactly, in the direction eigh proposes (and, as a second candidate, the same vector
@@ -350,6 +356,8 @@ def eval_eri(model, case):
     r = np.sqrt(np.clip(dg, 0.0, None))
     excess = np.abs(M) - np.outer(r, r)
     stats["schwarz_elements"] = int(M.size)
+    if big > 0 and excess.max() > 0.01 * TOL2 * big:
+        stats["schwarz_excess_within_100x_of_tol"] = 1
     if excess.max() > 0.5 * TOL2 * big:
         p, q = np.unravel_index(int(excess.argmax()), excess.shape)
         x = abs(Fraction(float(M[p, q]))) - Fraction(TOL2) * Fraction(big)
@@ -637,6 +645,8 @@ def _shrink_candidates(case):
 
 
 def run(rep, tier, seed, model, replay):
+    if replay is not None and "kind" not in replay.get("case", {}):
+        return      # a proof-obligation replay: the audit in main.py re-checks the theorems, nothing to re-run here
     cases = [replay["case"]] if replay is not None else gen_cases(tier, seed)
     # the expensive cases first so that the pool drains evenly
     cases.sort(key=lambda c: -_cost(c))
